@@ -2200,8 +2200,11 @@ def judge_mixed(chk, case, state0, steps, views, mats, history, count):
     flags = [True] * len(steps)
     ambiguous_at = None
     for _ in range(len(steps) + 1):
+        import time
+        t0 = time.perf_counter()
         rep = chk.lean.ask({"op": "mchain", "m": m, "state": state0,
                             "steps": [mixed_step(st, f) for st, f in zip(steps, flags)]})
+        chk.extra["mchain_model_wall_s"] = round(chk.extra.get("mchain_model_wall_s", 0) + time.perf_counter() - t0, 2)
         if "err" in rep:
             return ("broken", "mchain-model-error", rep["err"], rp)
         trace = rep["trace"]
@@ -2212,7 +2215,7 @@ def judge_mixed(chk, case, state0, steps, views, mats, history, count):
             if d is not None:
                 bad = (i, d)
                 break
-            if not close_np(np.array(core.unmat(trace[i]["U"]), dtype=complex), mats[i]):
+            if "U" in trace[i] and not close_np(np.array(core.unmat(trace[i]["U"]), dtype=complex), mats[i]):
                 return ("broken", "mchain-matrix-model-vs-code", f"history [{history(i)}]: the component list is the "
                         f"model's, the matrix is not (the law of every step holds on the real objects)", rp)
         if bad is None:
